@@ -6,6 +6,35 @@ var Modes = []string{"Required", "RequiresNew", "NotSupported", "Supports", "Nev
 var Outs = []string{"nil", "err", "panic"}
 var Replies = []string{"o", "f", "e", "t", "n"}
 
+var pvKinds = []string{"str", "err", "int", "struct", "ptr", "rt"}
+
+// finish: panic values of every dynamic type are spread over the panicking callbacks; the stale
+// xid a carrier call's pre-existing headers hold is one of this case's own namespace
+func finish(cases []*Case) []*Case {
+	for _, c := range cases {
+		var walk func(s *Scope)
+		walk = func(s *Scope) {
+			if s.Out == "panic" && s.Pv == "" {
+				s.Pv = pvKinds[(c.ID+s.ID)%len(pvKinds)]
+			}
+			for i := range s.Calls {
+				for j := range s.Calls[i].Pre {
+					for k, v := range s.Calls[i].Pre[j].Vals {
+						if v == hx("STALE") {
+							s.Calls[i].Pre[j].Vals[k] = hx(xidStr(c.ID, 77))
+						}
+					}
+				}
+			}
+			for _, k := range s.Kids {
+				walk(k)
+			}
+		}
+		walk(c.Tree)
+	}
+	return cases
+}
+
 func leaf(m, out string) *Scope { return &Scope{M: m, ID: 1, Shared: true, Out: out} }
 
 // second-phase scripts up to equivalence: a prefix of transport failures (e/t) of
@@ -82,6 +111,18 @@ func GenC04(tier string, seed uint64) []*Case {
 						Cancel: cn, Nc: g[0], Nr: g[1], Entry: Entry{Role: "UnKnow"}})
 				}
 			}
+		}
+	}
+	// a panic value of every dynamic type, for an initiator, a participant and a scope without transaction
+	for _, pv := range pvKinds {
+		for _, v := range []struct {
+			m   string
+			xid int
+		}{{"Required", 0}, {"Required", 100}, {"NotSupported", 0}, {"RequiresNew", 100}} {
+			t := leaf(v.m, "panic")
+			t.Pv = pv
+			add(&Case{Gen: "enum.panicvalues", Tree: t, Script: []string{}, Default: "o", Cancel: -1,
+				Nc: groups[1][0], Nr: groups[1][1], Entry: Entry{Role: "UnKnow", Xid: v.xid}})
 		}
 	}
 	// scopes that are not the initiator: every mode x transaction current or not x outcome;
@@ -258,7 +299,7 @@ func GenC04(tier string, seed uint64) []*Case {
 		add(&Case{Gen: "random", Tree: leaf(m, Outs[r.Intn(3)]), Script: sc, Default: d, Cancel: cn,
 			Nc: gi[0], Nr: gi[1], Entry: e})
 	}
-	return cases
+	return finish(cases)
 }
 
 // ---------------------------------------------------------------- C07: scope trees
@@ -272,6 +313,14 @@ func number(s *Scope, next *int) {
 
 func cloneScope(s *Scope) *Scope {
 	c := *s
+	c.Calls = nil
+	for _, cl := range s.Calls {
+		n := Call{Kind: cl.Kind}
+		for _, h := range cl.Pre {
+			n.Pre = append(n.Pre, HV{Key: h.Key, Shape: h.Shape, Vals: append([]string{}, h.Vals...)})
+		}
+		c.Calls = append(c.Calls, n)
+	}
 	c.Kids = nil
 	for _, k := range s.Kids {
 		c.Kids = append(c.Kids, cloneScope(k))
@@ -323,6 +372,13 @@ func randScope(r *hutil.Rng, depth, width int, root bool) *Scope {
 		s.Out = "err"
 	case 2:
 		s.Out = "panic"
+	}
+	if r.Chance(1, 6) {
+		pre := []HV{}
+		if r.Chance(2, 3) {
+			pre = append(pre, hv(xidKeys[r.Intn(len(xidKeys))], []string{"s", "l"}[r.Intn(2)], "STALE"))
+		}
+		s.Calls = append(s.Calls, Call{Kind: []string{"grpc", "dubbo"}[r.Intn(2)], Pre: pre})
 	}
 	if depth > 1 {
 		n := r.Intn(width + 1)
@@ -392,6 +448,28 @@ func GenC07(tier string, seed uint64) []*Case {
 		}
 		add("random", randScope(r, 2+r.Intn(depthSpan), 2+i%2*(depthSpan-3), true), e)
 	}
+	// carrier calls made from inside callbacks on the scope's own context (gRPC client interceptor,
+	// dubbo filter as consumer), the outgoing metadata / invocation already holding a stale xid under
+	// every accepted key: the callee must see exactly the caller's transaction (none in a scope
+	// that runs without one) and the caller's context must be untouched
+	pres := [][]HV{nil}
+	for _, k := range xidKeys {
+		pres = append(pres, []HV{hv(k, "s", "STALE")})
+	}
+	pres = append(pres, []HV{hv("SEATA_XID", "l", "STALE")}, []HV{hv("user", "s", "u1"), hv("tx_xid", "s", "STALE")})
+	for _, kind := range []string{"grpc", "dubbo"} {
+		for _, pre := range pres {
+			for _, mi := range Modes {
+				inner := &Scope{M: mi, Out: "nil", Shared: true, Calls: []Call{{Kind: kind, Pre: pre}}}
+				add("enum.calls", &Scope{M: "Required", Out: "nil", Shared: true, Kids: []*Scope{inner}}, entries[0])
+			}
+			for _, mr := range []string{"Required", "NotSupported", "Supports", "Never"} {
+				add("enum.calls", &Scope{M: mr, Out: "nil", Shared: true, Calls: []Call{{Kind: kind, Pre: pre}}}, entries[0])
+			}
+			add("enum.calls", &Scope{M: "Required", Out: "err", Shared: true, Calls: []Call{{Kind: kind, Pre: pre}},
+				Kids: []*Scope{{M: "NotSupported", Out: "nil", Shared: true, Calls: []Call{{Kind: kind, Pre: pre}, {Kind: "grpc", Pre: pre}}}}}, entries[1])
+		}
+	}
 	// trees under faults (transport errors cost 100-200 ms each: kept small)
 	for i := 0; i < nfault; i++ {
 		c := add("random.fault", randScope(r, 2+r.Intn(2), 2, true), entries[r.Intn(2)])
@@ -408,5 +486,5 @@ func GenC07(tier string, seed uint64) []*Case {
 		}
 		c.Nc, c.Nr = 2, 2
 	}
-	return cases
+	return finish(cases)
 }
